@@ -22,6 +22,7 @@ class Module:
     gen_spec = "GSpec"
     gen_props = ""
     probe_first = True              # replay a sample first and stop there if it already shows violations
+    timing_labels = ()              # labels that are re-checked by replaying their scenario alone before they are reported
     assumptions = []
 
     def gen_configs(self, prop, tier, sd):
@@ -183,6 +184,31 @@ def run(mod, prop, tier, replay=None, dev=False):
                                        "trace": b["trace"], "detail": b["detail"]})
                 else:
                     other[lab.split("-")[0]] += 1
+        # timing-sensitive labels (a step that did not finish within its deadline, ..) are confirmed before they are
+        # reported: the scenario is replayed alone, twice; a rejection that does not recur was the machine, not the code
+        if mod.timing_labels and not replay:
+            sus = [r for r in rejections if r["label"] in mod.timing_labels and r["trace"] == "seq"]
+            idxs = sorted(set(r["scn"] for r in sus))
+            keep = set()
+            if 0 < len(idxs) <= 12:
+                for n, i in enumerate(idxs):
+                    again = 0
+                    for rep in range(2):
+                        cf, ct = sc.path("confirm-%d-%d.ndjson" % (n, rep)), sc.path("confirm-%d-%d.trace" % (n, rep))
+                        with open(cf, "w") as f:
+                            f.write(scenarios[i] + "\n")
+                        mod.replay(exe, prop, tier, sd, cf, ct, sc)
+                        _, cbad, _ = vlib.validate_trace(sc.path("confirm-%d-%d.tlc" % (n, rep)), mod.name, ct,
+                                                         java_opts="-Xmx3g -XX:ParallelGCThreads=2")
+                        if any(l in mod.timing_labels for b in cbad for l in b["labels"]):
+                            again += 1
+                    if again == 2:
+                        keep.add(i)
+                dropped = [r for r in sus if r["scn"] not in keep]
+                if dropped:
+                    log("[%s] %d timing-sensitive rejection(s) did not recur when their scenarios were replayed alone: not reported"
+                        % (prop, len(dropped)))
+                    rejections = [r for r in rejections if r not in dropped]
         first = {}
         for r in rejections:
             first.setdefault(r["sig"], r)
